@@ -60,6 +60,9 @@ def gen_tuples(rng, n):
         for W, F in ((0, 0), (0, 1), (1, 0), (254, 1023), (255, 0), (255, 1023)):
             for d, p in ((1, 1), (1000, 2000), (-1, -1), (0, 0)):
                 out.append((k7, W, F, d, p, (5 if k7 else 0), (7 if k7 else 0), rng.choice([1, 2, 3, 6]), rng.randint(1, 32)))
+    # rates that nearly cancel: rough and fine of opposite sign leaving a few ten-thousandths of a m/s, and tiny fine values
+    for R, r in ((0, 1), (0, -1), (0, 4), (0, -4), (0, 5), (1, -9999), (1, -9996), (-1, 9999), (-1, 9996), (1, -10000), (2, -16384), (-2, 16383)):
+        out.append((1, 80, 512, 3, -3, R, r, rng.choice([1, 2, 3, 6]), rng.randint(1, 32)))
     # every +-2^k exactly, in each signed field
     for k7 in (0, 1):
         wd, wp = (20, 24) if k7 else (15, 22)
